@@ -680,6 +680,16 @@ def check_c10_c11(c, result):
     qs = gen_queries(c, N[c.tier][pid] // 4)
     valid = [querygen.query_tokens(q) for _, q in qs]
     cases = []
+    written = {}     # query text -> the structure as written (generator ground truth)
+    hx_ = lambda t: 'x' + t.encode('utf-8').hex()
+    for (_qid, q), toks in zip(qs, valid):
+        for style in ('plain', 'wild'):
+            t = querygen.render(toks, rng, style)
+            written[t] = dict(
+                frm=','.join('%s:%s' % (hx_(k), hx_(a)) for k, a in q['frm']),
+                select=','.join(('variable:' + hx_(s_[1])) if s_[0] == 'alias' else ('method_chain' if s_[0] == 'chain' else 'string:' + hx_(s_[1])) for s_ in q['select']),
+                preds=','.join('%s(%s)' % (hx_(p_['name']), ';'.join('%s:%s' % (hx_(k), hx_(f)) for k, f in p_['params'])) for p_ in q['preds']))
+            cases.append(t)
     for toks in valid:
         cases.append(querygen.render(toks, rng, 'plain'))
         for _ in range(3):
@@ -728,6 +738,22 @@ def check_c10_c11(c, result):
                                               how='pathfinder query --project D --output json --query <query>; exit status / panic'))
                 break
     if pid == 'C11':
+        # structure: what the parser recovers from a generated sentence is what the generator wrote
+        for qid, t in tq:
+            w = written.get(t)
+            if w is None:
+                continue
+            p_ = ip.get(qid, {})
+            c.stats['structure_checked'] += 1
+            if p_.get('parse') != 'accept':
+                result.violations.append(dict(property='C11', what='a generated sentence of the grammar is rejected', query=t, how='parser.ParseQuery(<query>)'))
+                break
+            got = dict(frm=p_.get('from', ''), select=p_.get('select', ''), preds=p_.get('preds', ''))
+            if got != w:
+                k_ = [k for k in w if got[k] != w[k]][0]
+                result.violations.append(dict(property='C11', what='the structure recovered from an accepted query differs from what is written (%s)' % k_, query=t,
+                                              written=w[k_], recovered=got[k_], how='parser.ParseQuery(<query>): SelectList / SelectOutput / Predicate'))
+                break
         # three-way: ANTLR parser (implementation) / Coq parser / Earley over Query.g4 on ANTLR's own tokens
         with open(c.work + '/earley.in', 'w') as f:
             todo = []
@@ -797,7 +823,7 @@ def check(pid, tier, seed, t0, st, replay_path):
     for k in ('translator', 'ocaml', 'harness', 'cli'):
         if st.get(k, 1) != 0:
             res.tie_broken.append('build step %s failed (see .build/%s.log)' % (k, k))
-    work = scratch('q-' + pid)
+    work = scratch('q-' + pid, deterministic='%s-%d' % (tier, seed))
     try:
         if replay_path:
             replay(pid, replay_path, res, work)
